@@ -178,8 +178,26 @@ func ruleWalkSkipsOnlyInverted(c *Ctx, rule string) {
 
 // C11.R5 — the page window: offset and length of a page are computed from the same size value
 func rulePageWindowOneSize(c *Ctx, rule string) {
-	fn := c.MustFn(rule, "pkg/utils/page", "paginationResult")
+	fn := c.Fn("pkg/utils/page", "paginationResult")
 	if fn == nil {
+		// renamed: the window function is the one in package page that multiplies two of its parameters (page*size)
+		for _, f := range c.SrcFns {
+			if f.Pkg.Pkg.Path() != modPath+"pkg/utils/page" || fn != nil {
+				continue
+			}
+			allInstrs(f, func(in ssa.Instruction) {
+				if bo, ok := in.(*ssa.BinOp); ok && bo.Op == token.MUL {
+					_, px := unspill(bo.X).(*ssa.Parameter)
+					_, py := unspill(bo.Y).(*ssa.Parameter)
+					if px && py {
+						fn = f
+					}
+				}
+			})
+		}
+	}
+	if fn == nil {
+		c.undecided(rule, nil, "page window function", nil, "no function of package page computes page*size from its parameters")
 		return
 	}
 	var mul, add *ssa.BinOp
@@ -235,7 +253,7 @@ func ruleEveryPostedEntryReleased(c *Ctx, rule string) {
 		return
 	}
 	var rel []ssa.CallInstruction
-	allInstrs(fn, func(in ssa.Instruction) {
+	allInstrsX(fn, func(in ssa.Instruction) { // the release loop may live in a helper of the handler
 		if call, ok := in.(*ssa.Call); ok && !call.Call.IsInvoke() {
 			if _, name, ok := fieldLoad(call.Call.Value); ok && name == "releaseFunc" {
 				rel = append(rel, call)
@@ -269,6 +287,16 @@ func ruleEveryPostedEntryReleased(c *Ctx, rule string) {
 				walk(e)
 			}
 		case *ssa.Const:
+		case *ssa.Parameter:
+			// the loop was extracted: the helper's parameter is what the handler passes
+			acts := actualsOf(x)
+			if len(acts) == 0 {
+				ok = false
+				via = "parameter without call sites"
+			}
+			for _, a := range acts {
+				walk(a)
+			}
 		case *ssa.Call:
 			if b, isB := x.Call.Value.(*ssa.Builtin); isB && b.Name() == "append" {
 				walk(x.Call.Args[0])
@@ -309,7 +337,16 @@ func ruleRetryBounded(c *Ctx, rule string) {
 		return
 	}
 	n := 0
-	for _, fn := range withAnon(root) {
+	fns := withAnon(root)
+	// the worker may be a method started with `go` instead of a closure
+	allInstrs(root, func(in ssa.Instruction) {
+		if g, ok := in.(*ssa.Go); ok {
+			if f := g.Call.StaticCallee(); f != nil && f.Blocks != nil && f.Pkg == root.Pkg {
+				fns = append(fns, withAnon(f)...)
+			}
+		}
+	})
+	for _, fn := range fns {
 		var sends []*ssa.Send
 		allInstrs(fn, func(in ssa.Instruction) {
 			if s, ok := in.(*ssa.Send); ok && pathEndsWith(s.Chan, "unreleased") {
@@ -391,7 +428,7 @@ func rulePerRangePickersDistinct(c *Ctx, rule string) {
 		if fn == nil {
 			continue
 		}
-		for _, w := range calls(fn, fipPkg+".walkIPRanges") {
+		for _, w := range callsAllX(fn, fipPkg+".walkIPRanges") {
 			mc, ok := w.Common().Args[1].(*ssa.MakeClosure)
 			if !ok {
 				continue
@@ -404,7 +441,7 @@ func rulePerRangePickersDistinct(c *Ctx, rule string) {
 			}
 			// inside a loop over the ranges of the request?
 			inLoop := false
-			for _, b := range fn.Blocks {
+			for _, b := range w.Parent().Blocks {
 				for _, p := range b.Preds {
 					if b.Dominates(p) && naturalLoop(b)[w.Block()] {
 						inLoop = true
